@@ -144,6 +144,43 @@ def execAll : List Stmt → Env → Env
 def Code.run (c : Code) (ub : Nat) (env : Env) : Env :=
   loopN c.body c.lo (ub + 1 - c.lo) (execAll c.init env)
 
+/-! ## Fused loops (LFRicLoopFuseTrans): several statements per DoF -/
+
+def execList : List Stmt → Nat → Env → Env
+  | [], _, env => env
+  | s :: rest, df, env => execList rest df (exec s df env)
+
+/-- `DO df = lo, lo+n-1` with a statement list as body. -/
+def loopL (body : List Stmt) (lo : Nat) : Nat → Env → Env
+  | 0, env => env
+  | n+1, env => execList body (lo + n) (loopL body lo n env)
+
+/-- One item of a generated invoke subroutine: a scalar initialisation or a DoF loop. -/
+inductive Item where
+  | init (s : Stmt)
+  | loop (lo ub : Nat) (body : List Stmt)
+  deriving Repr, Inhabited
+
+def runProg : List Item → Env → Env
+  | [], env => env
+  | .init s :: rest, env => runProg rest (exec s 0 env)
+  | .loop lo ub body :: rest, env => runProg rest (loopL body lo (ub + 1 - lo) env)
+
+def Stmt.readsScal (t : Nat) : Stmt → Bool
+  | .fassign _ e | .sassign _ e => usesScal t e
+  | .rand _ => false
+
+def Stmt.writesScal (t : Nat) : Stmt → Bool
+  | .sassign u _ => u == t
+  | _ => false
+
+/-- Scalar independence of the bodies of two loops that are to be fused: a scalar written by one statement
+(a reduction variable) is neither read nor written by the other.  Field dependences need no condition: a
+statement at DoF `df` reads and writes element `df` only. -/
+def scalIndep (s1 s2 : Stmt) : Prop :=
+  ∀ t, (s1.writesScal t = true → s2.readsScal t = false ∧ s2.writesScal t = false)
+     ∧ (s2.writesScal t = true → s1.readsScal t = false)
+
 /-! ## The documentation formulas (Fortran array syntax over the DoFs `1..n`) -/
 
 inductive Doc where
